@@ -542,14 +542,18 @@ def run_coalesced_disconnect(n, at, kinds):
             serials.append(cw.sent()[0]['serial'])
         data = b''
         for i in range(n):
+            # (answers from peers of either byte order, as a bus forwards
+            # them, in one read)
             if kinds[i] == 'return':
                 data += R.encode_message(R.METHOD_RETURN, 800 + i,
                                          {'reply_serial': serials[i]}, 's',
-                                         ['for-%d' % i])
+                                         ['for-%d' % i],
+                                         little=(i + at) % 2 == 0)
             else:
                 data += R.encode_message(R.ERROR, 800 + i,
                                          {'reply_serial': serials[i],
-                                          'error_name': 'a.b.E%d' % i})
+                                          'error_name': 'a.b.E%d' % i},
+                                         little=(i + at) % 2 == 1)
         conn.dataReceived(data)
         conn.connectionLost(fakes.lost_reason())
         cw.clock.advance(1000)
